@@ -45,8 +45,8 @@ impl Device for Mouse {
         false
     }
 
-    fn read_byte(&mut self, _address: usize, _access: AccessCode) -> Result<u8, BusError> {
-        unimplemented!()
+    fn read_byte(&mut self, address: usize, _access: AccessCode) -> Result<u8, BusError> {
+        Err(BusError::Read(address))
     }
 
     fn read_half(&mut self, address: usize, _access: AccessCode) -> Result<u16, BusError> {
@@ -58,35 +58,35 @@ impl Device for Mouse {
         }
     }
 
-    fn read_word(&mut self, _address: usize, _access: AccessCode) -> Result<u32, BusError> {
-        unimplemented!()
+    fn read_word(&mut self, address: usize, _access: AccessCode) -> Result<u32, BusError> {
+        Err(BusError::Read(address))
     }
 
     fn write_byte(
         &mut self,
-        _address: usize,
+        address: usize,
         _val: u8,
         _access: AccessCode,
     ) -> Result<(), BusError> {
-        unimplemented!()
+        Err(BusError::Write(address))
     }
 
     fn write_half(
         &mut self,
-        _address: usize,
+        address: usize,
         _val: u16,
         _access: AccessCode,
     ) -> Result<(), BusError> {
-        unimplemented!()
+        Err(BusError::Write(address))
     }
 
     fn write_word(
         &mut self,
-        _address: usize,
+        address: usize,
         _val: u32,
         _access: AccessCode,
     ) -> Result<(), BusError> {
-        unimplemented!()
+        Err(BusError::Write(address))
     }
 
     fn load(&mut self, _address: usize, _data: &[u8]) -> Result<(), BusError> {
